@@ -23,6 +23,8 @@ func main() {
 		cmdVerify(os.Args[2:])
 	case "check":
 		cmdCheck(os.Args[2:])
+	case "cache-export":
+		cacheExport()
 	default:
 		fmt.Fprintln(os.Stderr, "unknown command")
 		os.Exit(2)
